@@ -201,7 +201,7 @@ def view(m):
 
 @contract('C06', 'landmark_manager_ops', configs=[dict(k=k, op=op) for k in (0, 1, 2, 3) for op in
           ('set-new', 'set-existing', 'set-None', 'set-wrong-dim', 'set-non-shape', 'get-None', 'get', 'delete', 'iterate', 'copy',
-           'assign-to-owner', 'assign-wrong-dim-to-owner', 'transform-owner')],
+           'assign-to-owner', 'assign-own-manager-back', 'assign-to-owner-with-landmarks', 'assign-wrong-dim-to-owner', 'transform-owner')],
           functions=['menpo.landmark.base:LandmarkManager.__setitem__', 'menpo.landmark.base:LandmarkManager.__getitem__',
                      'menpo.landmark.base:LandmarkManager.__delitem__', 'menpo.landmark.base:LandmarkManager.__iter__',
                      'menpo.landmark.base:LandmarkManager.__len__', 'menpo.landmark.base:LandmarkManager.n_dims',
@@ -302,6 +302,25 @@ def landmark_manager_ops(ctx, k, op):
             m['later'] = B.cloud(ctx, 'later', 2, 2)
             del m[keys0[0]]
             ctx.check_true('owner/later-edit-invisible', [g for g, _ in view(other.landmarks)] == [g for g, _ in snap])
+    elif op == 'assign-own-manager-back':
+        # the value assigned is the very manager the owner holds (obj.landmarks = obj.landmarks,
+        # copy_landmarks_and_path(obj, obj), a kept reference): nothing may be lost
+        kept_ref = owner.landmarks
+        owner.landmarks = kept_ref
+        ctx.check_true('own-manager/keys-order-kept', list(owner.landmarks) == keys0, '%s vs %s' % (list(owner.landmarks), keys0))
+        for g, st in v0:
+            if g in owner.landmarks:
+                compare_states(ctx, 'own-manager/group[%s]' % g, state_of(owner.landmarks[g]), st)
+        inv(owner.landmarks, 'own-manager')
+    elif op == 'assign-to-owner-with-landmarks':
+        # the receiving object already has groups of its own: they are replaced, not merged
+        other = B.shape(ctx, 'TriMesh', 2, 'oth', n=3, landmarks=2)
+        other.landmarks = m
+        ctx.check_true('replaced/keys-are-the-assigned-ones', list(other.landmarks) == keys0, '%s vs %s' % (list(other.landmarks), keys0))
+        ctx.check_true('replaced/owner-gets-a-copy', other.landmarks is not m and not shared_storage(other.landmarks, m))
+        for g, st in v0:
+            compare_states(ctx, 'replaced/group[%s]' % g, state_of(other.landmarks[g]), st)
+        ctx.check_true('replaced/assigned-manager-untouched', [g for g, _ in view(m)] == keys0)
     elif op == 'assign-wrong-dim-to-owner':
         other = B.shape(ctx, 'PointCloud', 3, 'oth', n=3)
         if k == 0:
